@@ -909,6 +909,33 @@ def run(chk, facts, tier, only=None):
 
 
     # ------------------------------------------------------------------------------------------------- R5
+    def r7():
+        """Depth and size budgets are installed once per cycle because a configuration key that matches again further down the path is
+        recognised as a repetition: `configs::is_repeated(path, matched)` must hold exactly when `matched` occurs as a contiguous run
+        anywhere in `path`. The function is evaluated (its syntax tree, on lists of labels) against that definition."""
+        from c11_util import Interp, NotEvaluable
+        h = cp.fn(r"^candid_parser::configs::is_repeated$")
+        chk.analysed(h["key"])
+        samples = [(["a"], ["a"]), (["a", "b"], ["b"]), (["a", "b"], ["c"]), (["a"], ["a", "b"]), (["a", "b", "a", "c"], ["a", "c"]),
+                   (["x", "a", "b", "y", "a", "c"], ["a", "c"]), (["a", "a", "b"], ["a", "b"]), (["a", "b", "a", "b"], ["b", "a"]),
+                   (["n", "o", "n", "o", "p"], ["n", "o", "p"]), (["a", "b", "c"], ["a", "c"]), ([], ["a"]), (["b", "a"], ["a"]),
+                   (["a", "x", "a", "y", "a", "z"], ["a", "z"]), (["a", "b", "c", "d"], ["b", "c"]), (["a", "b", "c", "d"], ["c", "b"])]
+        wrong = []
+        for path, matched in samples:
+            want = any(path[i:i + len(matched)] == matched for i in range(0, len(path) - len(matched) + 1))
+            try:
+                got = Interp(cp).call_fn(h, [list(path), list(matched)])
+            except NotEvaluable as e_:
+                raise AnchorMissing(f"configs::is_repeated cannot be evaluated on {path} / {matched}: {e_}")
+            if bool(got) != want:
+                wrong.append((path, matched, got))
+        chk.expect(not wrong, "budget:is_repeated:any-occurrence",
+                   f"configs::is_repeated answers {wrong[0][2] if wrong else ''} for path {wrong[0][0] if wrong else ''} and key {wrong[0][1] if wrong else ''} "
+                   f"({len(wrong)} of {len(samples)} samples differ from `matched occurs as a contiguous run of path`): a depth / size key whose head label also "
+                   f"occurs earlier on the path in another context is not recognised as repeated, so the budget is re-installed on every round of a recursive "
+                   f"type and the generator does not stop within the configured depth",
+                   where=f"{h['span']['file']}:{h['span']['lo']}", ok_detail=f"{len(samples)} (path, key) samples agree with the definition")
+
     def r6():
         """`principal`, `service` and `func` values are drawn by `<Principal as Arbitrary>::arbitrary` (crate ic_principal): the two `unwrap`s in it
         hold because the drawn length lies in 1..=MAX_LENGTH_IN_BYTES — `last_mut()` needs at least one byte, `try_from` at most 29."""
@@ -997,7 +1024,8 @@ def run(chk, facts, tier, only=None):
                           ("C20.R3", "generated values have the type's constructor, labels, field order, variant index and payload types", r3),
                           ("C20.R4", "depth/size budget bookkeeping; push_state/pop_state paired with the same element", r4),
                           ("C20.R5", "the size estimate of a type is computed without trapping arithmetic", r5),
-                          ("C20.R6", "the leaf generator for principals cannot panic", r6)):
+                          ("C20.R6", "the leaf generator for principals cannot panic", r6),
+                          ("C20.R7", "a configuration key that matches again on the path is recognised as a repetition", r7)):
         if only and only != rid:
             continue
         chk.run_rule(rid, desc, f_)
